@@ -26,6 +26,11 @@ class P(ServeProp):
             if "rerr" in l or "werr" in l or "ferr" in l or "deep=1" in l:
                 continue
             out.append(self._with_manifest(l))
+        # reads of the built-in pages and of anything else, from trees that do or do not hold a file of that name: serving a default must not create it
+        for _ in range(n // 6):
+            t = gs.gen_tree(rnd, maxents=rnd.choice([0, 1, 3, 8]))
+            tg = rnd.choice(["/style.css", "/script.js", "/favicon.svg", "/", "/index.html", "/404.html", "/missing", "/sub/", "/style.css?x=1", "/a.txt"])
+            out.append(self._with_manifest(gs.serve_case(rnd, kind="serve" if rnd.random() < 0.8 else "serveL", tree=t, target=tg, method=rnd.choice(["GET", "GET", "HEAD", "OPTIONS"]), meta="builtin=1")))
         while len(out) < n:
             t = gs.gen_tree(rnd, maxents=rnd.choice([3, 8]))
             inroot = t.inroot()
